@@ -152,6 +152,8 @@ class Run:
         self.obls = []
         self.nobl = 0
         self.loop_ord = 0
+        from . import values as _values
+        _values.CURRENT_RUN[0] = self
         self.site_ord = {}
         self.call_log = []          # (callee, static ordinal, line) of every modular call made on this path
         self.draws = []
